@@ -271,3 +271,5 @@ def run(ctx):
     if not getattr(ctx, "nested", False):
         from rules import C13 as _c13, shared as _sh
         _c13.run(_sh.Proxy(ctx, ("C13-d",), "C10-c"))
+        # .. and read back unchanged when it is turned into the peer's settings (C13-a, the receive mapping only)
+        _c13.run(_sh.Proxy(ctx, ("C13-a",), "C10-c", only=("From<&h3::proto::frame::Settings>",)))
